@@ -322,7 +322,16 @@ func (b *blockingBody) Read(p []byte) (int, error) {
 	b.buf = b.buf[n:]
 	return n, nil
 }
-func (b *blockingBody) Close() error { return nil }
+
+// Close makes pending and later Reads fail, as net/http's request bodies do.
+func (b *blockingBody) Close() error {
+	if b.failed == nil {
+		b.failed = errBodyClosed
+	}
+	return nil
+}
+
+var errBodyClosed = errors.New("http: invalid Read on closed Body")
 
 type c15Obs struct {
 	tick int64
